@@ -408,7 +408,7 @@ func (w *world) judge(q *query, groups []group, inv, ret uint64, who string, qui
 				}
 				tsSeen[p.TS] = true
 				if i > 0 && p.TS < rw.pts[i-1].TS {
-					return bad("points-out-of-order", "descending-step"+w.cycleOf(rw.s, rw.f, p.TS), "series %s: timestamp %d after %d: %s", rowName(*rw), p.TS, rw.pts[i-1].TS, tsList(rw.pts))
+					return bad("points-out-of-order", "descending-step"+w.cycleOf(rw.s, rw.f, p.TS, tmin), "series %s: timestamp %d after %d: %s", rowName(*rw), p.TS, rw.pts[i-1].TS, tsList(rw.pts))
 				}
 				if p.TS < tmin {
 					return bad("out-of-range", "before-start", "series %s: point at %d before the inclusive start %d", rowName(*rw), p.TS, tmin)
@@ -602,7 +602,7 @@ func (w *world) judge(q *query, groups []group, inv, ret uint64, who string, qui
 			if class == "stale" || class == "order" {
 				var ts int64
 				fmt.Sscanf(detail, "ts=%d", &ts)
-				sig += w.cycleOf(s, f, ts)
+				sig += w.cycleOf(s, f, ts, tmin)
 			}
 			return bad(class, sig, "series %s returned %d points [%s]: %s", name, len(pts), tsList(pts), detail)
 		}
@@ -619,9 +619,10 @@ func shardOfTS(ts int64) int {
 	return 0
 }
 
-// cycleOf returns ":keycursor-order-cycle" when the block locations of the key in the shard that holds ts (or in
-// any shard when ts is outside all of them) contain a comparison cycle — the precondition of known finding C06-F1.
-func (w *world) cycleOf(s, f int, ts int64) string {
+// cycleOf returns ":keycursor-order-cycle" when, in the shard that holds ts (or in any shard when ts is outside all
+// of them), the KeyCursor of the key seeked to the read's start sorts an older file's block behind an overlapping
+// newer one — the precondition of known finding C06-F1.
+func (w *world) cycleOf(s, f int, ts, seek int64) string {
 	if w.st == nil {
 		return ""
 	}
@@ -639,7 +640,7 @@ func (w *world) cycleOf(s, f int, ts int64) string {
 			continue
 		}
 		if te, ok := e.(*tsm1.Engine); ok {
-			if t := cycleTag(te.FileStore.Files(), key, true); t != "" {
+			if t := cycleTag(te.FileStore.Files(), key, seek, true); t != "" {
 				return t
 			}
 		}
